@@ -5,6 +5,8 @@ text of the path term) to that state; the first access to an unknown path create
 st.ghost['fs0'].  ASSUMPTION A-paths: syntactically different path terms denote different files (in particular the
 directory returned by TemporaryDirectory is fresh).  Every action that changes the file system is appended to
 st.ghost['fs_actions'] (rely/guarantee check)."""
+import ast
+
 import z3
 
 from .core import *
@@ -141,6 +143,10 @@ def _file_enter(I, st, selfv, pos, kws, node):
 
 
 def _file_exit(I, st, cm, ctl, node):
+    """closing a file opened for writing flushes what was written: only now is the file complete"""
+    o = st.heap[cm.id]
+    if o.fields["mode"].s == "wb" and "pending" in o.fields:
+        fs_set(st, o.fields["path"], FState(z3.IntVal(2), o.fields["pending"].term()), "write")
     return [(st, ctl)]
 
 
@@ -216,8 +222,9 @@ def np_loadtxt(I, st, pos, kws, node):
 
 @libfn("pickle.dump")
 def _pickle_dump(I, st, pos, kws, node):
-    """ASSUMED: dump either completes (the file then holds exactly the pickle of the object; CPython closes the
-    unreferenced file object at the end of the statement) or raises leaving a partial file"""
+    """ASSUMED: dump writes the pickle into the (buffered) file object or raises midway.  The file on disk is complete only
+    once the file object is CLOSED: immediately after the statement when the file object is an unreferenced temporary
+    (`pickle.dump(obj, open(p, 'wb'))`, CPython reference counting), otherwise at close() / the end of its with-block."""
     obj, fobj = pos
     fo = st.heap[fobj.id]
     path = fo.fields["path"]
@@ -226,7 +233,14 @@ def _pickle_dump(I, st, pos, kws, node):
         raise EngineError("pickle.dump of a value without data identity")
     bad = I.fork(st)
     fs_set(bad, path, FState(z3.IntVal(1), z3.String(fresh_name("partial"))), "write")
-    fs_set(st, path, FState(z3.IntVal(2), PICKLE(did)), "write")
+    temporary = len(node.args) > 1 and isinstance(node.args[1], ast.Call)
+    if temporary:
+        fs_set(st, path, FState(z3.IntVal(2), PICKLE(did)), "write")
+    else:
+        flds = dict(fo.fields)
+        flds["pending"] = StrV(PICKLE(did))
+        st.heap[fobj.id] = ObjVal(fo.cls, flds)
+        fs_set(st, path, FState(z3.IntVal(1), z3.String(fresh_name("buffered"))), "write")
     return [(bad, Exc("OSError", "pickle.dump failed midway", I.where(node))), (st, NONE)]
 
 
